@@ -71,7 +71,7 @@ class Contract:
     """
 
     def __init__(self, fn, name, pre, post, assigns=(), ghosts=(), mode="S", replaces=(), loops=None, unwind=None,
-                 kind="unbounded", extra_flags=(), objbits=None, note="", prop=None, props=None, timeout=None, backends=None, libc=(), optional=False):
+                 kind="unbounded", extra_flags=(), objbits=None, note="", prop=None, props=None, timeout=None, backends=None, libc=(), optional=False, stubs=()):
         self.fn = fn
         self.name = name
         self.pre = list(pre)
@@ -90,6 +90,11 @@ class Contract:
         self.timeout = timeout
         self.backends = backends  # preferred order of back-end names (products: put kissat/z3 first)
         self.libc = list(libc)    # C library functions replaced by frame-only contracts (assumed dependency contracts)
+        self.stubs = list(stubs)  # C library functions modelled by ghost-index over-approximations (GHOST_STUBS)
+        for st in self.stubs:
+            for g in STUB_GHOSTS[st]:
+                if g not in [x[1] for x in self.ghosts]:
+                    self.ghosts.append(("unsigned long", g))
         self.optional = optional  # best effort: no verdict within the budget is recorded in the evidence but does not make the check undecided
 
     @property
@@ -164,6 +169,8 @@ def clauses(c, for_replace=False):
         tg = list(c.assigns)
         if not for_replace:
             tg += ["sbv_steps"]
+            if c.stubs:
+                tg += ["sbv_mc", "sbv_sc"]
         out.append("__CPROVER_assigns(%s)" % "; ".join(tg))
     return "\n".join(out)
 
@@ -213,8 +220,10 @@ def emit_c(c, path, canary=None):
     body = re.sub(r"/\*@CONTRACT (\w+)@\*/", sub_contract, body)
 
     def sub_loop(m):
-        if m.group(1) == c.fn.mangled and int(m.group(2)) in c.loops:
-            L = c.loops[int(m.group(2))]
+        # loop contracts: key k = k-th loop of the function under contract, key (mangled, k) = k-th loop of a callee (e.g. a libstdc++ algorithm)
+        key = int(m.group(2)) if m.group(1) == c.fn.mangled and int(m.group(2)) in c.loops else (m.group(1), int(m.group(2)))
+        if key in c.loops:
+            L = c.loops[key]
             s = "__CPROVER_assigns(%s)\n" % "; ".join(list(L.assigns) + ["sbv_steps"]) if L.assigns is not None else ""
             for inv in L.invariants:
                 s += "__CPROVER_loop_invariant(%s)\n" % inv
@@ -249,6 +258,10 @@ def emit_c(c, path, canary=None):
             tail.append(sig + ' { __CPROVER_assert(sbv_canary != 0 || SBV_CANARY_OK, "handler reach canary: must FAIL"); __CPROVER_assume(0); }')
         else:
             tail.append(sig + " { __CPROVER_assume(0); }")
+    if c.stubs:
+        pre.append("unsigned sbv_mc, sbv_sc; /* call counters of the ghost-index stubs */")
+    for fn in c.stubs:
+        tail.append(GHOST_STUBS[fn])
     for fn in c.libc:
         if re.search(r"\b%s\(" % fn, body):
             tail.append(LIBC_CONTRACTS[fn])
@@ -269,6 +282,42 @@ LIBC_CONTRACTS = {
 }
 
 
+# Ghost-index over-approximations of C library functions (ISO C semantics restricted to one symbolic byte).
+# memmove(dest, src, n): every byte of dest[0..n) gets an arbitrary value, except the byte at offset t of the destination OBJECT
+# (t: a ghost chosen by the environment, one per call ordinal), which gets the old value of the corresponding source byte.
+# The real memmove satisfies this for every t, so whatever is proved for an unconstrained ghost holds for the real function;
+# the precondition (src readable, dest writable for n bytes) is asserted.
+GHOST_STUBS = {
+    "memmove": """void *memmove(void *dest, const void *src, size_t n) {
+  unsigned long t = sbv_mc == 0 ? sbv_mt0 : sbv_mc == 1 ? sbv_mt1 : sbv_mt2; sbv_mc++;
+  __CPROVER_assert(n == 0 || __CPROVER_r_ok(src, n), "memmove source region readable");
+  __CPROVER_assert(n == 0 || __CPROVER_w_ok(dest, n), "memmove destination region writable");
+  unsigned long o = __CPROVER_POINTER_OFFSET(dest);
+  _Bool have = t >= o && t - o < n; unsigned long i = t - o; char tmp = 0;
+  if(have) tmp = ((const char *)src)[i];
+  if(n != 0) __CPROVER_havoc_slice(dest, n);
+  if(have) ((char *)dest)[i] = tmp;
+  return dest;
+}""",
+    "memset": """void *memset(void *s, int c, size_t n) {
+  unsigned long t = sbv_sc == 0 ? sbv_st0 : sbv_st1; sbv_sc++;
+  __CPROVER_assert(n == 0 || __CPROVER_w_ok(s, n), "memset destination region writable");
+  unsigned long o = __CPROVER_POINTER_OFFSET(s);
+  if(n != 0) __CPROVER_havoc_slice(s, n);
+  if(t >= o && t - o < n) ((char *)s)[t - o] = (char)(unsigned char)c;
+  return s;
+}""",
+    # strlen(s): returns the ghost sbv_l under the assumption that s[sbv_l] is a NUL and that the ghost byte sbv_li before it is
+    # not; every real call (first NUL at L) is the instance sbv_l == L
+    "strlen": """size_t strlen(const char *s) {
+  __CPROVER_assert(__CPROVER_r_ok(s, sbv_l + 1), "strlen: string readable up to its terminator");
+  __CPROVER_assume(s[sbv_l] == 0 && (sbv_li >= sbv_l || s[sbv_li] != 0));
+  return sbv_l;
+}""",
+}
+STUB_GHOSTS = {"memmove": ["sbv_mt0", "sbv_mt1", "sbv_mt2"], "memset": ["sbv_st0", "sbv_st1"], "strlen": ["sbv_l", "sbv_li"]}
+
+
 def nd(ct):
     """nondeterministic value of C type ct that respects the type's invariant (a _Bool is 0 or 1)"""
     return "(t ? 1 : 0)" if ct.strip() == "_Bool" else "t"
@@ -277,7 +326,7 @@ def nd(ct):
 def harness_main(c):
     u = c.unit
     L = ["int main(void) {"]
-    L.append("  sbv_steps = 0; sbv_canary = 0;")
+    L.append("  sbv_steps = 0; sbv_canary = 0;" + (" sbv_mc = 0; sbv_sc = 0;" if c.stubs else ""))
     decl = []
     args = []
     for i, p in enumerate(c.fn.params):
